@@ -288,14 +288,14 @@ namespace Micromap
 variable {K V Q : Type} (E : Env K V Q)
 
 theorem dropReturnedKey_cb (o : Option (K × V)) :
-    CbOk (dropReturnedKey E o) (fun _ => match o with | some p => [.dropK p.1] | none => [])
+    CbOk (dropReturnedKey (Q := Q) o) (fun _ => match o with | some p => [.dropK p.1] | none => [])
       (fun _ r => r = o.map (·.2)) := by
   cases o with
   | none => exact (CbOk.pure none).mono (fun _ => rfl) (fun _ _ h => h)
   | some p =>
     obtain ⟨k, v⟩ := p
     unfold dropReturnedKey
-    have := CbOk.seq (CbOk.unwindWith (dropV_cb E v) (dropK_cb k)) (fun _ => CbOk.pure (K := K) (V := V) (Q := Q) (some v))
+    have := CbOk.seq (CbOk.unwindWith (leak_cb (.v v)) (dropK_cb k)) (fun _ => CbOk.pure (K := K) (V := V) (Q := Q) (some v))
     exact this.mono (fun _ => by simp) (fun _ _ h => by simpa using h)
 
 /-- list-level result of `insert` / `insert_key_value` on a present key. -/
@@ -327,7 +327,7 @@ theorem insert_sat {s : St K V Q} {l : List (K × V)} (hr : Rep s.r l) (k : K) (
     obtain ⟨hcap, hw, hcase⟩ := h
     rcases hcase with ⟨hi, hold, hrep, hfind⟩ | ⟨_, hold, hroom, hrep, hfind⟩
     · subst hold
-      refine Sat.cb_last (dropReturnedKey_cb E _) ?_ ?_
+      refine Sat.cb_last (dropReturnedKey_cb _) ?_ ?_
       · intro r s2 g1 g2 g3
         refine ⟨by rw [g1, hcap], Or.inl ⟨i, hi, by simpa using g3, g1 ▸ hrep, by simpa using hw.trans g2, hfind⟩⟩
       · intro s2 tr' g1 g2 g3 g4
